@@ -925,11 +925,22 @@ func (s *c04Scan) purity(prog *ssa.Program) {
 			}
 		}
 	}
+	type polImpl struct {
+		pol string
+		im  *c04Impl
+	}
+	var todo []polImpl
+	done := map[*c04Impl]bool{}
 	for _, pol := range []string{"ipHash", "headerHash"} {
-		im := s.info.byPolicy[pol]
-		if im == nil {
-			continue
+		for _, im := range s.info.policyImpls[pol] {
+			if !done[im] {
+				done[im] = true
+				todo = append(todo, polImpl{pol, im})
+			}
 		}
+	}
+	for _, pi := range todo {
+		pol, im := pi.pol, pi.im
 		root := prog.FuncValue(im.method)
 		if root == nil || root.Blocks == nil {
 			c.Errorf("R-C04-5: no SSA body for %s", im.method.FullName())
